@@ -31,10 +31,11 @@ def gen_handler(rng, allow_setsleep=True):
         return {"kind": "send", "items": [[rng.choice(CALLBACKS), hx(_data(rng, 300))] for _ in range(rng.randint(1, 4))]}
     if r < 0.8:
         return {"kind": "none"}
-    if r < 0.88:
+    if r < 0.84:
         return {"kind": "raise"}
-    if r < 0.94 and allow_setsleep:
-        return {"kind": "register", "cmd": rng.choice(sorted(COMMANDS)), "new": gen_handler(rng, allow_setsleep=False)}
+    if r < 0.95 and allow_setsleep:
+        return {"kind": "register", "cmd": rng.choice([rng.choice(sorted(COMMANDS)), "same", "same", "catch_all"]),
+                "new": gen_handler(rng, allow_setsleep=False)}
     if allow_setsleep:
         return {"kind": "setsleep", "sleeptime": rng.choice([500, 2000, 30000]), "jitter": rng.choice([0, 20, 90])}
     return {"kind": "none"}
